@@ -16,7 +16,11 @@
    c.vals[h]            validator set of height h : record name -> power  (sm.Store.LoadValidators)
    c.time[h]            block time of height h   (BlockMeta.Header.Time)
    c.signed[h]          names with a non-absent signature in the chain's commit of height h
-   c.A, c.D             ConsensusParams.Evidence.MaxAgeNumBlocks / MaxAgeDuration
+   c.params[h]          [A, D] = ConsensusParams.Evidence.MaxAgeNumBlocks / MaxAgeDuration of the
+                        sm.State whose LastBlockHeight is h (the application may change them
+                        through EndBlock at any height).  The limits IN FORCE in the pool are
+                        those of the state passed to the last Update (or loaded by NewPool),
+                        i.e. c.params[p.height]
    c.dv[id]             duplicate-vote items (types.DuplicateVoteEvidence), abstract fields:
                           h,hB,rA,rB,tA,tB  height/round/type of VoteA / VoteB
                           val,valB          signer of VoteA / VoteB;  blkA,blkB block ids
@@ -47,6 +51,8 @@
    p.height             pool.state.LastBlockHeight      (LastBlockTime = c.time[p.height])
    p.pruneH, p.pruneT   pruningHeight / pruningTime
    p.tip                height of the block store;  p.saved: height of the saved sm.State
+   p.startH             height of the state NewPool loaded (ghost; only Weak_ExpiryUsesStartupParams reads
+                        it, and only then Restart moves it, to keep the real model small)
    p.inflight           AddEvidence calls that passed the isPending/isCommitted look-ups and
                         have not verified+stored yet: set of [tk, id, h] (h: p.height then)
 *)
@@ -61,6 +67,7 @@ CONSTANTS
   Weak_NoReloadOnRestart,  \* NewPool does not recount / reload pending evidence
   Weak_PendingSkipsExpiry, \* CheckEvidence trusts already-pending evidence without an expiry check (code before the fix)
   Weak_LateAddUnchecked,   \* the store step of AddEvidence does not re-check the committed marker (code before the fix)
+  Weak_ExpiryUsesStartupParams, \* isExpired / pruning keep the age limits NewPool saw; Update never refreshes them
   Weak_BufferUsesCurrentValSet \* late conflicting votes (height below the one just decided) become evidence with the
                                \* validator set of the NEW state instead of the set of their own height
 
@@ -102,14 +109,20 @@ HaveMeta(p, h)   == h >= 1 /\ h <= p.tip       \* BlockStore.LoadBlockMeta
 HaveCommit(p, h) == h >= 1 /\ h < p.tip        \* BlockStore.LoadBlockCommit: stored with block h+1
 
 \* ------------------------------------------------------------------ expiry (pool.go isExpired, verify.go verify)
-ExpiredAt(c, H, h, t) ==
+ParamsAt(c, H) == c.params[ClampH(c, H)]
+ExpiredWith(c, pr, H, h, t) ==
   LET ageB == H - h
       ageD == TimeAt(c, H) - t
-  IN IF Weak_ExpiryEither THEN ageB > c.A \/ ageD > c.D
-                          ELSE ageB > c.A /\ ageD > c.D
-Expired(c, p, h, t) == ExpiredAt(c, p.height, h, t)
-\* the statement's notion, never weakened: BOTH limits exceeded
-ExpiredBoth(c, H, h, t) == H - h > c.A /\ TimeAt(c, H) - t > c.D
+  IN IF Weak_ExpiryEither THEN ageB > pr.A \/ ageD > pr.D
+                          ELSE ageB > pr.A /\ ageD > pr.D
+\* verify.go: state = evpool.State(); limits and clock of that state (height H)
+ExpiredAt(c, H, h, t) == ExpiredWith(c, ParamsAt(c, H), H, h, t)
+\* pool.go isExpired / removeExpiredPendingEvidence: evpool.State() again, i.e. the limits of
+\* the state of the last Update -- they change whenever the application changes them
+PoolParams(c, p) == ParamsAt(c, IF Weak_ExpiryUsesStartupParams THEN p.startH ELSE p.height)
+Expired(c, p, h, t) == ExpiredWith(c, PoolParams(c, p), p.height, h, t)
+\* the statement's notion, never weakened: BOTH limits of the state of height H exceeded
+ExpiredBoth(c, H, h, t) == H - h > ParamsAt(c, H).A /\ TimeAt(c, H) - t > ParamsAt(c, H).D
 
 \* ------------------------------------------------------------------ verify.go VerifyDuplicateVote
 DvProves(c, d) ==
@@ -295,7 +308,7 @@ PruneFrom(c, p, s, i) ==
   IF i > Len(s) THEN [p EXCEPT !.pruneH = p.height, !.pruneT = TimeAt(c, p.height)]
   ELSE LET id == s[i] IN
        IF ~Expired(c, p, HOf(c, id), TOf(c, id))
-       THEN [p EXCEPT !.pruneH = HOf(c, id) + c.A + 1, !.pruneT = TOf(c, id) + c.D + 1]
+       THEN [p EXCEPT !.pruneH = HOf(c, id) + PoolParams(c, p).A + 1, !.pruneT = TOf(c, id) + PoolParams(c, p).D + 1]
        ELSE PruneFrom(c, RemoveKeys(c, p, {KeyOf(c, id)}), s, i + 1)
 Prune(c, p) == PruneFrom(c, p, PendingSeq(c, p), 1)
 
@@ -317,7 +330,7 @@ PendingEvidence(c, p, mb) ==
 
 \* ------------------------------------------------------------------ NewPool (restart)
 Restart(c, p) ==
-  LET p1 == [p EXCEPT !.height = p.saved, !.buffer = << >>, !.inflight = {}, !.list = << >>]
+  LET p1 == [p EXCEPT !.height = p.saved, !.startH = IF Weak_ExpiryUsesStartupParams THEN p.saved ELSE @, !.buffer = << >>, !.inflight = {}, !.list = << >>]
       p2 == Prune(c, p1)
   IN IF Weak_NoReloadOnRestart THEN [p2 EXCEPT !.size = 0]
      ELSE [p2 EXCEPT !.size = Cardinality(p2.pending), !.list = PendingSeq(c, p2)]
@@ -325,7 +338,7 @@ Restart(c, p) ==
 InitPool(c) ==
   [pending |-> {}, committed |-> {}, list |-> << >>, size |-> 0, buffer |-> << >>,
    height |-> c.H0, pruneH |-> c.H0, pruneT |-> TimeAt(c, c.H0), tip |-> c.H0, saved |-> c.H0,
-   inflight |-> {}]
+   inflight |-> {}, startH |-> c.H0]
 
 \* ------------------------------------------------------------------ one step, by action descriptor
 \* a.name in Add | Check | Report | Update | Pending | Restart | AddBegin | AddEnd
